@@ -516,3 +516,25 @@ mutant('C14', 'fault moves atoms below', SFF, "sfsystem.atoms.pos[self.abovefaul
 mutant('C14', 'fault edits the stored system', SFF, "sfsystem = deepcopy(self.system)", "sfsystem = self.system", 'FAULT')
 mutant('C14', 'a2 fraction applied to a1 vector', SFF, "faultshift = a1 * self.a1vect_cart + a2 * self.a2vect_cart + outofplane * ovect", "faultshift = a1 * self.a1vect_cart + a2 * self.a1vect_cart + outofplane * ovect", 'FAULT')
 mutant('C14', 'a2 setter accepts out-of-plane vector', SFF, "        if not np.isclose(cart[self.cutindex], 0.0):\n            raise ValueError(f\"shift vector {value} not in fault plane {self.hkl}\")\n        \n        self.__a2vect_uvw = value", "        self.__a2vect_uvw = value", 'FAULT')
+
+# ------------------------------------------------------------------ C13
+DIF = 'atomman/defect/Dislocation/__init__.py'
+MOF = 'atomman/defect/Dislocation/_monopole.py'
+PAF = 'atomman/defect/Dislocation/_periodicarray.py'
+mutant('C13', 'orientation arm left-handed', DIF, "uvws = np.array([-m_uvw, ξ_uvw_p, n_uvw])", "uvws = np.array([m_uvw, ξ_uvw_p, n_uvw])", 'ORIENT')
+mutant('C13', 'orientation arm rows swapped', DIF, "uvws = np.array([n_uvw, ξ_uvw_p, m_uvw])", "uvws = np.array([ξ_uvw_p, n_uvw, m_uvw])", 'ORIENT')
+mutant('C13', 'slip plane shifts at planes', DIF, "relshifts = rcellwidth - (coords[1:] + coords[:-1]) / 2", "relshifts = rcellwidth - coords[:-1]", 'SHIFTS')
+mutant('C13', 'monopole displacement subtracted', MOF, "disl_system.atoms.pos += self.dislsol.displacement(disl_system.atoms.pos - center)", "disl_system.atoms.pos -= self.dislsol.displacement(disl_system.atoms.pos - center)", 'MONOPOLE')
+mutant('C13', 'monopole displacement ignores centre', MOF, "self.dislsol.displacement(disl_system.atoms.pos - center)", "self.dislsol.displacement(disl_system.atoms.pos)", 'MONOPOLE')
+mutant('C13', 'monopole base system displaced too', MOF, "disl_system = deepcopy(base_system)", "disl_system = base_system", 'MONOPOLE')
+mutant('C13', 'monopole periodic normal to the line', MOF, "disl_system.pbc[self.lineindex] = True", "disl_system.pbc[self.lineindex - 1] = True", 'MONOPOLE')
+mutant('C13', 'monopole asymmetric multipliers', MOF, "sizemults[self.lineindex-1] = (-sizemults[self.lineindex-1] // 2, sizemults[self.lineindex-1] // 2)", "sizemults[self.lineindex-1] = (0, sizemults[self.lineindex-1])", 'MONOPOLE')
+mutant('C13', 'monopole boundary inside', MOF, "disl_system.atoms.atype[shape.outside(disl_system.atoms.pos)] += base_system.natypes", "disl_system.atoms.atype[shape.inside(disl_system.atoms.pos)] += base_system.natypes", None)
+mutant('C13', 'cylinder normal not perpendicular', MOF, "normal_vect2 = np.array([vect2[1], -vect2[0]])", "normal_vect2 = np.array([vect2[1], vect2[0]])", 'BOUNDARY')
+mutant('C13', 'cylinder radius adds width', MOF, "radius = smallest - width", "radius = smallest + width", 'BOUNDARY')
+mutant('C13', 'box boundary moved outward', MOF, "plane.point -= width * plane.normal", "plane.point += width * plane.normal", 'BOUNDARY')
+mutant('C13', 'array tilt sign', PAF, "    if burgers.dot(m) > 0:\n        newvects[motionindex] -= burgers / 2", "    if burgers.dot(m) > 0:\n        newvects[motionindex] += burgers / 2", 'ARRAY')
+mutant('C13', 'array accepts too many deletions', PAF, "if found != expected:", "if found < expected:", 'ARRAY')
+mutant('C13', 'array linear field even in n', PAF, "return np.outer(np.sign(pos.dot(n)) * (0.25 - pos.dot(m) / (2 * length)), burgers)", "return np.outer((0.25 - pos.dot(m) / (2 * length)), burgers)", 'ARRAY')
+mutant('C13', 'array base not trimmed', PAF, "    base_system = base_system.atoms_ix[disl_system.atoms.old_id]\n", "", 'ARRAY')
+mutant('C13', 'disregistry initial box', DRF, "disp = displacement(basesystem, dislsystem)", "disp = displacement(basesystem, dislsystem, box_reference='initial')", 'DISREGISTRY')
